@@ -201,6 +201,9 @@ func diffLines(a, b []string) (onlyA, onlyB []string) {
 	return
 }
 
+// filterRootMutators: the functions of the mutation API (C13); every other function of jp belongs to the evaluators (C11).
+var filterRootMutators = map[string]bool{"Expr.set": true, "Expr.modify": true, "Filter.remove": true, "Filter.removeOne": true, "Expr.MustRemove": true, "Expr.MustRemoveOne": true}
+
 func init() {
 	rules["C05"] = func(prog *Program, rep *Report) {
 		rep.Explain("C05 decides sibling clauses of Expr.Get: for every fragment kind the index-selection fingerprint (bound normalisation, clamps, loop bounds and steps, resets) is the same in the copies for []any, gen.Array and Indexed (and for map, gen.Object, Keyed), as frozen in the sibling table from the pinned tree; the mixed-radix enumeration used by filters is checked by M-radix. Not covered: that the shared skeleton is the documented semantics (no oracle without executing), filter results, map order.")
@@ -212,6 +215,7 @@ func init() {
 		ruleIndexLE(prog, rep, "jp")
 		ruleRoundGuard(prog, rep)
 		ruleTruthMatrix(prog, rep) // "filter keeping the elements whose script is true"
+		ruleFilterRoot(prog, rep, func(fn string) bool { return strings.HasPrefix(fn, "Expr.Get") || strings.HasPrefix(fn, "Expr.First") })
 	}
 	rules["C11"] = func(prog *Program, rep *Report) {
 		rep.Explain("C11 decides sibling clauses across evaluators and representations: the cells of Get, FirstFound, Has, GetNodes and FirstNode keep the index-selection fingerprints they share today across containers and across evaluators (e.g. Has and FirstFound select indexes identically for slices). Not covered: correctness of the shared skeleton, reflection lookup semantics, Locate/Walk normalised paths.")
@@ -221,12 +225,14 @@ func init() {
 		rulePresenceByNil(prog, rep)
 		ruleIndexLE(prog, rep, "jp")
 		ruleRoundGuard(prog, rep)
+		ruleFilterRoot(prog, rep, func(fn string) bool { return !filterRootMutators[fn] })
 	}
 	rules["C13"] = func(prog *Program, rep *Report) {
 		rep.Explain("C13 decides sibling clauses of the mutators: the cells of set and modify keep the index-selection fingerprints they share across []any, gen.Array and Indexed (and map, gen.Object, Keyed): bound normalisation, guards such as 0 <= i && i < LEN, loop bounds, and the labelled break that stops the *One forms after the first change. The known divergence of modify/remove from Get on the slice end bound (inclusive) is pinned by jp/remove_test.go and recorded in KNOWN_FINDINGS.txt. Not covered: the frame condition on values, Set's created structure.")
 		ruleSiblingArith(prog, rep, map[string]bool{"set": true, "modify": true}, "B-mutate")
 		ruleC13Extra(prog, rep)
 		ruleSliceBound(prog, rep)
+		ruleFilterRoot(prog, rep, func(fn string) bool { return filterRootMutators[fn] })
 		ruleAppendRetain(prog, rep, "jp")
 		rulePresenceByNil(prog, rep)
 		ruleIndexLE(prog, rep, "jp")
